@@ -309,6 +309,24 @@ static size_t feed(zckDL *dl, char *data, size_t len, const char *fragspec, int 
 
 #include "zh_serve.h"
 
+/* a second writer in the same thread, fed a piece after every write call of `writeseq` (an application producing several
+ * archives side by side): `companion C f:path piece` */
+static zckCtx *cmp_ctx = NULL;
+static char *cmp_data = NULL;
+static size_t cmp_len = 0, cmp_pos = 0, cmp_piece = 0;
+static long cmp_calls = 0, cmp_bad = 0;
+static void companion_step(zckCtx *main_ctx) {
+    if(!cmp_ctx || cmp_ctx == main_ctx || cmp_pos >= cmp_len) return;
+    size_t n = cmp_piece < cmp_len - cmp_pos ? cmp_piece : cmp_len - cmp_pos;
+    char *cp = malloc(n ? n : 1);
+    memcpy(cp, cmp_data + cmp_pos, n);
+    ssize_t r = zck_write(cmp_ctx, cp, n);
+    free(cp);
+    cmp_calls++;
+    if(r != (ssize_t)n) cmp_bad++;
+    cmp_pos += n;
+}
+
 /* ---- main loop ------------------------------------------------------ */
 #define MAXTOK 8192
 int main(int argc, char **argv) {
@@ -509,10 +527,19 @@ int main(int argc, char **argv) {
                 calls++;
                 if(r != (ssize_t)n) { bad = 1; zh_log("{\"i\":%d,\"ev\":\"write\",\"pos\":%zu,\"n\":%zu,\"rc\":%zd}", opi, pos, n, r); }
                 pos += n;
+                companion_step(C(t[1]));
                 if(n == 0 && calls > (long)l + 1000) break;
             }
             free(d);
             RET("\"rc\":%d,\"bytes\":%zu,\"calls\":%ld,\"ends\":%ld,\"worst_call_ms\":%.1f", bad ? -1 : 0, pos, calls, ends, worst);
+        } else if(!strcmp(op, "companion")) {
+            cmp_ctx = C(t[1]);
+            cmp_data = get_data(t[2], &cmp_len);
+            cmp_pos = 0;
+            cmp_piece = strtoull(t[3], NULL, 10);
+            RET("\"rc\":%d,\"bytes\":%zu", 1, cmp_len);
+        } else if(!strcmp(op, "companion_stat")) {
+            RET("\"calls\":%ld,\"bad\":%ld,\"fed\":%zu", cmp_calls, cmp_bad, cmp_pos);
         } else if(!strcmp(op, "end_chunk")) {
             ssize_t r = zck_end_chunk(C(t[1]));
             RET("\"rc\":%zd", r);
